@@ -23,6 +23,7 @@ func c20(c *eng.Ctx, r *eng.Report) {
 		"R20.6 a record is rewritten read-modify-write — UpdateMiner(m, db, false), which writes stake, account and status together, is given the record just read from the registry — and RemoveMiner erases the four slots only on the `left == 0` edge. " +
 		"R20.7 the stake total and the proposer set used for leader election grow together, by the record's own stake, only for non-nil records whose status is normal and whose ApplyHeight has been reached, and the proposer count is the size of that same set (no second walk with its own filter). " +
 		"R20.11 every lookup answers from the state it is handed: no method of MinerManager consults a process-local cache or writes a package variable — the registration record, stake, account and status live in the AccountDB passed in, and a memo keyed by id outlives the deletion of the record (apply, refund everything, apply again with new keys: lookup by id returns the old ApplyHeight and keys while the registry iteration sees the new record); " +
+		"R20.14 a refund added to a height's list reaches the map the block's escrow is booked from: RefundInfoList is a struct value, so wherever AddRefundInfo is called on a local copy, that copy is stored into a map afterwards on every path to the function's return — a list read out of map[height]RefundInfoList by value and appended to without being stored back loses the appended refund (finding F31: the second account's refund of a block is dropped, its stake is reduced and nothing is escrowed); " +
 		"R20.13 a miner enters the registry as a normal miner: minerApplyExecutor.Execute sets Status to the constant MinerStatusNormal on the record it hands to AddMiner, on every path — the record is decoded from the transaction's JSON, so otherwise the applicant chooses its status: a record that is locked and registered but aborted (or of an unknown status) is found by id and missing from the proposer totals; " +
 		"R20.12 a miner record disappears only through the reviewed paths: RemoveMiner is called by the refund path (which has computed what is left and scheduled the refund) and by the two one-off clean-ups of unused validators, nowhere else — a second caller that removes an aborted miner to let it apply again drops the stake still locked in the record (200 of 10000 vanish); " +
 		"R20.10 an escrow slot accumulates: in RefundManager.Add every SetData for an id whose slot was found non-empty writes a value computed from what GetData returned (existing + new) — only on the `slot empty` edge may the new amount be stored alone; a second batch for the same height and account (the unstake opcodes flush per call; a reward landing on the same height) otherwise replaces the first and the earlier refund vanishes; " +
@@ -44,6 +45,7 @@ func c20(c *eng.Ctx, r *eng.Report) {
 	c20LookupsUncached(c, r)
 	c20WhoRemovesMiners(c, r)
 	c20ApplyStartsNormal(c, r)
+	c20RefundListWrittenBack(c, r)
 }
 
 func c20Layers(c *eng.Ctx, r *eng.Report) {
@@ -849,4 +851,45 @@ func c20ApplyStartsNormal(c *eng.Ctx, r *eng.Report) {
 		}
 	}
 	r.Check(ok, rule, "apply:status-normal", c.Pos(add.Pos()), "Status = MinerStatusNormal dominates AddMiner", "minerApplyExecutor.Execute hands AddMiner a record whose Status it did not set to MinerStatusNormal: the record comes out of the transaction's JSON, so the applicant chooses the status it is registered with — a miner registered as aborted has its stake locked and is found by id, but is absent from the proposer/validator totals and the account iteration: the lookups disagree")
+}
+
+// c20RefundListWrittenBack: see R20.14.
+func c20RefundListWrittenBack(c *eng.Ctx, r *eng.Report) {
+	const rule = "R20.14"
+	r.Min(rule, 4)
+	for _, fn := range c.ModFuncs() {
+		if fn.Blocks == nil || c.IsTestFunc(fn) {
+			continue
+		}
+		i := 0
+		for _, s := range eng.Sites(fn) {
+			if !strings.HasSuffix(s.Name(), "types.RefundInfoList).AddRefundInfo") {
+				continue
+			}
+			al, isAlloc := s.Common().Args[0].(*ssa.Alloc)
+			if !isAlloc {
+				continue // called through a pointer that is not a local copy
+			}
+			key := fmt.Sprintf("refund-writeback:%s#%d", eng.FuncName(fn), i)
+			i++
+			stores := func(in ssa.Instruction) bool {
+				mu, ok := in.(*ssa.MapUpdate)
+				if !ok {
+					return false
+				}
+				u, isU := mu.Value.(*ssa.UnOp)
+				return isU && u.X == ssa.Value(al)
+			}
+			leak := ""
+			for _, re := range eng.Returns(fn) {
+				if !eng.Reaches(s.Instr, re.Ret) {
+					continue
+				}
+				if ok, _ := eng.ReachAvoiding(fn, s.Instr, re, stores); ok {
+					leak = c.Pos(re.Ret.Pos())
+				}
+			}
+			r.Check(leak == "", rule, key, c.Pos(s.Pos()), "the changed copy is stored into the map before the function returns", eng.FuncName(fn)+" adds a refund to a local copy of a RefundInfoList and can return (at "+leak+") without storing the copy into the map: when the list for that height already exists in the block's context — a second refund transaction of another account in the same block, maturing at the same height — the appended entry is lost: the miner's stake is reduced, nothing is escrowed, and locked + escrow + liquid shrinks (two refunds of 400: 400 come back)")
+		}
+	}
 }
